@@ -154,6 +154,23 @@ def run(ctx):
         ok = ok or ('not allow_remote' in conds and any("'remote' in" in c for c in conds))
     ctx.check('R4', 'the metaclass raises Warning when a remote-aware __getstate__ sits below one that is not', ok, cf.short, 'inconsistent-chain-accepted',
               'a class whose opt-in is inconsistent along its inheritance chain is silently accepted', where=loc(cf, cf.node))
+    # the verdict cache: written only with the final verdict, and never on the path that rejects the class
+    gcf = ctx.an.cfg(cf, M)
+    cache_stores = [n for n in gcf.nodes if n.stmt is not None and n.part in (None, 'store') and isinstance(n.stmt, ast.Assign)
+                    and any(isinstance(t, ast.Subscript) and 'cache' in norm(t.value) for t in n.stmt.targets)]
+    final_ret = [st.value.id for st in cf.node.body if isinstance(st, ast.Return) and isinstance(st.value, ast.Name)]
+    for n in cache_stores:
+        v = n.stmt.value
+        ctx.check('R4', f'the verdict cache is written with the computed verdict (`{norm(n.stmt)}`)', bool(final_ret) and is_name(v, final_ret[-1]), cf.short,
+                  f'cache-store-value:{norm(v)}', f'`{norm(n.stmt)}` caches a value that is not the verdict the function returns: later checks of the same class answer from a wrong cache entry',
+                  where=loc(cf, n.stmt))
+    warn_nodes = [n for n in gcf.nodes if n.kind == 'stmt' and isinstance(n.stmt, ast.Raise) and n.stmt in warn]
+    cs_ids = {n.id for n in cache_stores}
+    pth = gcf.find_path([n for n in cache_stores], lambda n: n in warn_nodes, edge_ok=is_flow) if cache_stores and warn_nodes else None
+    ctx.check('R4', 'a class that is rejected with a Warning is not cached as decided', pth is None, cf.short, 'rejected-class-cached',
+              'the verdict cache is written before the inconsistency Warning can be raised: the first dump of an inconsistent class raises, every later one finds the cached entry '
+              'and silently serialises the class without the remote flag', where=loc(cf, cf.node), path=path_str(pth or []))
+    ctx.floor('verdict cache stores', len(cache_stores), 1)
     reg = [c for c in calls_in(cf.node) if last_attr(c) == 'append' and 'supported_classes' in (receiver(c) or '')]
     ok = bool(reg) and any(isinstance(x, ast.If) and norm(x.test) == 'has_remote' for x in _anc(pm, reg[0]))
     ctx.check('R4', 'a class is registered as supported only if its MRO has a remote-aware __getstate__', ok, cf.short, 'registration-unconditional',
